@@ -97,41 +97,10 @@ func checkC19(ctx *core.Ctx, rep *core.Report) {
 	blocks := append(append([]string{}, c19Pinned...), lits...)
 	full := !ctx.Quick()
 
-	// ---- pinned classification -------------------------------------------------
-	if ctx.Shard == 0 {
-		for _, b := range c19Pinned {
-			_, n, _ := net.ParseCIDR(b)
-			first := n.IP
-			last := make(net.IP, len(first))
-			for i := range first {
-				last[i] = first[i] | ^n.Mask[i]
-			}
-			mid := make(net.IP, len(first))
-			copy(mid, first)
-			mid[len(mid)-1] |= ^n.Mask[len(mid)-1] & 0x55
-			for _, a := range []net.IP{first, last, mid} {
-				rep.Inc("validated")
-				if !util.IsIANAReserved(a) {
-					rep.Violate("C19|pinned_not_reserved|"+b, fmt.Sprintf("%s (in special-purpose block %s) is not classified reserved", a, b), map[string]interface{}{"op": "IsIANAReserved", "ip": a.String()})
-				}
-				if a4 := a.To4(); a4 != nil && len(a) == 4 {
-					if util.IsIANAReserved(a) != util.IsIANAReserved(mapped(a4)) {
-						rep.Violate("C19|mapped_differs", fmt.Sprintf("%s classified differently in 4-byte and IPv4-mapped form", a), map[string]interface{}{"op": "mapped", "ip": a.String()})
-					}
-				}
-			}
-		}
-		for _, s := range c19Public {
-			a := net.ParseIP(s)
-			rep.Inc("validated")
-			if util.IsIANAReserved(a) {
-				rep.Violate("C19|public_reserved|"+s, s+" (well-known public address) is classified reserved", map[string]interface{}{"op": "IsIANAReserved", "ip": s})
-			}
-			if a4 := a.To4(); a4 != nil && util.IsIANAReserved(net.IP(a4)) {
-				rep.Violate("C19|public_reserved|"+s, s+" (4-byte form) is classified reserved", map[string]interface{}{"op": "IsIANAReserved", "ip": s})
-			}
-		}
-	}
+	// ---- pinned classification: at the start of the process, and again at its end — after millions of address and
+	// network queries of both families (a table that an earlier query rearranges answers correctly only in a fresh process)
+	c19PinnedPass(rep, "in a fresh process")
+	defer c19PinnedPass(rep, "after the address and network sweeps of this process")
 
 	// ---- IPv4: exact bitmap per /8 ---------------------------------------------
 	// literal boundaries with prefix > 24 mark their /24 as "scan all 256"
@@ -161,6 +130,50 @@ func checkC19(ctx *core.Ctx, rep *core.Report) {
 		c19Witness(ctx, rep, blocks)
 		c19Lints(ctx, rep, blocks)
 	}
+}
+
+func c19PinnedPass(rep *core.Report, when string) {
+	for _, b := range c19Pinned {
+		_, n, _ := net.ParseCIDR(b)
+		first := n.IP
+		last := make(net.IP, len(first))
+		for i := range first {
+			last[i] = first[i] | ^n.Mask[i]
+		}
+		mid := make(net.IP, len(first))
+		copy(mid, first)
+		mid[len(mid)-1] |= ^n.Mask[len(mid)-1] & 0x55
+		for _, a := range []net.IP{first, last, mid} {
+			rep.Inc("validated")
+			if !util.IsIANAReserved(a) {
+				rep.Violate("C19|pinned_not_reserved|"+b, fmt.Sprintf("%s (in special-purpose block %s) is not classified reserved %s", a, b, when), map[string]interface{}{"op": "IsIANAReserved", "ip": a.String(), "when": when})
+			}
+			if a4 := a.To4(); a4 != nil && len(a) == 4 {
+				if util.IsIANAReserved(a) != util.IsIANAReserved(mapped(a4)) {
+					rep.Violate("C19|mapped_differs", fmt.Sprintf("%s classified differently in 4-byte and IPv4-mapped form %s", a, when), map[string]interface{}{"op": "mapped", "ip": a.String(), "when": when})
+				}
+			}
+			bits := 8 * len(a)
+			if !util.IntersectsIANAReserved(net.IPNet{IP: a, Mask: net.CIDRMask(bits, bits)}) {
+				rep.Violate("C19|pinned_net_not_intersecting|"+b, fmt.Sprintf("the single-address network of %s (in special-purpose block %s) does not intersect reserved space %s", a, b, when), map[string]interface{}{"op": "Intersects", "ip": a.String(), "when": when})
+			}
+		}
+		rep.Inc("validated")
+		if !util.IntersectsIANAReserved(*n) {
+			rep.Violate("C19|pinned_net_not_intersecting|"+b, fmt.Sprintf("special-purpose block %s does not intersect reserved space %s", b, when), map[string]interface{}{"op": "Intersects", "net": b, "when": when})
+		}
+	}
+	for _, s := range c19Public {
+		a := net.ParseIP(s)
+		rep.Inc("validated")
+		if util.IsIANAReserved(a) {
+			rep.Violate("C19|public_reserved|"+s, s+" (well-known public address) is classified reserved "+when, map[string]interface{}{"op": "IsIANAReserved", "ip": s, "when": when})
+		}
+		if a4 := a.To4(); a4 != nil && util.IsIANAReserved(net.IP(a4)) {
+			rep.Violate("C19|public_reserved|"+s, s+" (4-byte form) is classified reserved "+when, map[string]interface{}{"op": "IsIANAReserved", "ip": s, "when": when})
+		}
+	}
+	rep.Inc("pinned_passes")
 }
 
 // c19Slash8 classifies every /24 of one /8 (4 samples, all 256 addresses where
